@@ -1,7 +1,12 @@
-(* Dimension names on the two paths (tensordict/_td.py):
-     TensorDict.names setter      -- compile arm: `if value is not None: graph_break() else: return`
-     TensorDict.__init__          -- `if not is_compiling(): self.names = names`
-     TensorDict._new_unsafe       -- `if is_compiling() and cls is TensorDict: return TensorDict(..., names=names, ...)`
+(* Dimension names on the two paths (tensordict/_td.py).
+   After repair D1801 neither TensorDict.__init__ nor the names setter asks is_compiling(): both paths run the same code
+   (the setter, statement by statement, below).  The only site left is
+     TensorDict._new_unsafe       -- `if is_compiling() and cls is TensorDict: result = TensorDict(...); result._td_dim_names = names`
+   whose compile arm builds the object through __init__ without names and then stores the names unchecked, as the eager arm does.
+   The code as it was before the repair is kept under the switch [repaired := false] (the `_unrepaired` definitions):
+     names setter   -- compile arm: `if value is not None: graph_break() else: return`   (erasing skipped)
+     __init__       -- `if not is_compiling(): self.names = names`                        (names dropped, not validated)
+     _new_unsafe    -- compile arm `return TensorDict(..., names=names, ...)`              (so: names dropped)
    State: _td_dim_names (None = unnamed) and batch_dims.  Sub-tensordict renaming (_rename_subtds) is not modelled. *)
 From Coq Require Import List String Bool Arith.
 Import ListNotations.
@@ -25,9 +30,11 @@ Fixpoint distinct_count (v : list dname) : nat :=
   | x :: r => if existsb (dname_eqb x) r then distinct_count r else S (distinct_count r)
   end.
 
-(* the setter, statement by statement; the recursive `self.names = None` re-enters the setter with the same flag *)
-Definition names_set (compile : bool) (bd : nat) (cur : nstate) (value : option (list dname)) : nres :=
-  let set_none := if compile then NOk cur       (* "We have already made sure that the tensordict was not named": return *)
+(* the setter, statement by statement; the recursive `self.names = None` re-enters the setter with the same flag.
+   [repaired = false]: the compile arm of the code before repair D1801 *)
+Definition names_set_gen (repaired compile : bool) (bd : nat) (cur : nstate) (value : option (list dname)) : nres :=
+  let set_none := if compile && negb repaired
+                  then NOk cur                  (* unrepaired compile arm: "We have already made sure that the tensordict was not named": return *)
                   else NOk None in              (* _rename_subtds(None); _erase_names() *)
   match value with
   | None => set_none
@@ -41,13 +48,32 @@ Definition names_set (compile : bool) (bd : nat) (cur : nstate) (value : option 
         else NOk (Some v)
   end.
 
-(* __init__ on a fresh object (_td_dim_names is the class default None) *)
-Definition init_names (compile : bool) (bd : nat) (names : option (list dname)) : nres :=
-  if compile then NOk None else names_set false bd None names.
+(* __init__ on a fresh object (_td_dim_names is the class default None): `self.names = names`
+   (unrepaired: `if not is_compiling(): self.names = names`) *)
+Definition init_names_gen (repaired compile : bool) (bd : nat) (names : option (list dname)) : nres :=
+  if compile && negb repaired then NOk None else names_set_gen repaired compile bd None names.
 
-(* _new_unsafe: stores the names unchecked, unless compiling a plain TensorDict *)
-Definition new_unsafe_names (compile cls_is_td : bool) (bd : nat) (names : option (list dname)) : nres :=
-  if compile && cls_is_td then init_names true bd names else NOk names.
+(* _new_unsafe: stores the names unchecked.  Compiling a plain TensorDict it builds the object through __init__ WITHOUT the
+   names and then stores them unchecked too: `result = TensorDict(..., lock=lock); result._td_dim_names = names`
+   (unrepaired: `return TensorDict(..., names=names, ...)`, i.e. whatever __init__ does with the names) *)
+Definition new_unsafe_names_gen (repaired compile cls_is_td : bool) (bd : nat) (names : option (list dname)) : nres :=
+  if compile && cls_is_td then
+    if repaired then
+      match init_names_gen repaired true bd None with
+      | NOk _ => NOk names
+      | NValueError => NValueError
+      end
+    else init_names_gen repaired true bd names
+  else NOk names.
+
+(* the code of the working tree (what D_C18.v dispatches to and harness/c18_dual.py compares with) ... *)
+Definition names_set := names_set_gen true.
+Definition init_names := init_names_gen true.
+Definition new_unsafe_names := new_unsafe_names_gen true.
+(* ... and the code before the repair, kept as a witness that the dual statements have bite *)
+Definition names_set_unrepaired := names_set_gen false.
+Definition init_names_unrepaired := init_names_gen false.
+Definition new_unsafe_names_unrepaired := new_unsafe_names_gen false.
 
 (* the names property *)
 Definition names_get (bd : nat) (s : nstate) : list dname :=
